@@ -267,6 +267,66 @@ func executeTo(s Snap, v string) (err error) {
 	return ex.ExecuteTo(context.Background(), v)
 }
 
+// executeToThenTamper keeps one executor over a real directory: ExecuteTo(v) is called twice on the
+// untouched directory (the second call has nothing left to do and fails with "no pending files"),
+// then the directory is replaced by the tampered one and the same executor is asked again: whatever
+// entry point is used, it reads the directory as it is now.
+func executeToThenTamper(base, n Snap, v string) (problem string) {
+	defer func() {
+		if p := recover(); p != nil {
+			problem = fmt.Sprintf("panic: %v", p)
+		}
+	}()
+	root := "/dev/shm"
+	if st, e := os.Stat(root); e != nil || !st.IsDir() {
+		root = clih.ScratchRoot()
+	}
+	path := filepath.Join(root, fmt.Sprintf("verif-c06x-%d-%d", os.Getpid(), localSeq.Add(1)))
+	if e := os.MkdirAll(path, 0o755); e != nil {
+		return "harness: " + e.Error()
+	}
+	defer os.RemoveAll(path)
+	write := func(s Snap) error {
+		es, _ := os.ReadDir(path)
+		for _, e := range es {
+			os.Remove(filepath.Join(path, e.Name()))
+		}
+		for name, c := range s {
+			if e := os.WriteFile(filepath.Join(path, name), []byte(c), 0o644); e != nil {
+				return e
+			}
+		}
+		return nil
+	}
+	if e := write(base); e != nil {
+		return "harness: " + e.Error()
+	}
+	d, e := migrate.NewLocalDir(path)
+	if e != nil {
+		return "harness: " + e.Error()
+	}
+	drv := &mighelp.Driver{OnExec: func(string) error { return nil }}
+	ex, e := migrate.NewExecutor(drv, d, mighelp.NewStore())
+	if e != nil {
+		return "harness: " + e.Error()
+	}
+	ctx := context.Background()
+	if e := ex.ExecuteTo(ctx, v); e != nil {
+		return "" // the untouched directory cannot be executed to v for reasons of its own: not judged
+	}
+	ex.ExecuteTo(ctx, v) // nothing pending any more
+	if e := write(n); e != nil {
+		return "harness: " + e.Error()
+	}
+	if _, e := ex.Pending(ctx); e == nil || !isChecksumErr(e) {
+		return fmt.Sprintf("after ExecuteTo(%q) was called twice on an executor, its Pending does not notice the tampering: %v", v, e)
+	}
+	if e := ex.ExecuteN(ctx, 0); e == nil || !isChecksumErr(e) {
+		return fmt.Sprintf("after ExecuteTo(%q) was called twice on an executor, its ExecuteN does not notice the tampering: %v", v, e)
+	}
+	return ""
+}
+
 // versionsBeforeCheckpoint lists the versions of the directory that precede a checkpoint file.
 func versionsBeforeCheckpoint(s Snap) []string {
 	files, err := s.mem().Files()
@@ -319,6 +379,14 @@ func judge(base, n Snap, edit string) (problem, key string, want int) {
 		for _, v := range versionsBeforeCheckpoint(n) {
 			if err := executeTo(n, v); err == nil || !isChecksumErr(err) {
 				return fmt.Sprintf("tampering not detected by Executor.ExecuteTo(%q), a version that precedes a checkpoint: %v", v, err), key, want
+			}
+		}
+		// and an executor that was used before the directory was touched sees it as well.
+		if m := reEditPos.FindStringSubmatch(edit); m == nil || len(m[1]) == 1 && m[1] <= "3" {
+			for _, v := range versionsBeforeCheckpoint(base) {
+				if p := executeToThenTamper(base, n, v); p != "" {
+					return p, key, want
+				}
 			}
 		}
 	case wantNil:
@@ -668,6 +736,8 @@ func specials() []Snap {
 		mk(map[string]string{"1_a.sql": "A;\n", "2_b.sql": "A;\n", "3_c.sql": "A;\n"}),
 		mk(map[string]string{"1_a.sql": "", "2_b.sql": "B;\n"}),
 		mk(map[string]string{"1_a.sql": "A;\n", "notes.txt": "hello"}),
+		// a checkpoint in the middle: versions before it, a file after it.
+		mk(map[string]string{"1_a.sql": "A;\n", "2_ck.sql": "-- atlas:checkpoint\n\nA;\nB;\n", "3_c.sql": "C;\n"}),
 		// a file that begins with a byte order mark.
 		mk(map[string]string{"1_a.sql": "\ufeffA;\n", "2_b.sql": "B;\n"}),
 		// a file name that begins with a blank.
@@ -682,7 +752,7 @@ func Run(r *report.Run) {
 	if r.Tier == "thorough" {
 		depth, tamperDepth, full = 4, 2, true
 	}
-	r.Rule = fmt.Sprintf("(1) BFS to depth %d over the writer alphabet {Planner.WritePlan x 6 formatters x 2 plans x {new version, overwrite version 1}, WriteCheckpoint x 2 plans, MemDir.CopyFiles into an empty MemDir / into one that holds the first file / newest file first} from the empty MemDir (and LocalDir to depth 2); canonical state = sorted (name, bytes) with 14-digit timestamps masked; invariant Validate(dir)==nil in every state. (2) for every reached state of depth<=%d with <=3 migration files plus 11 hand-built states (sum-ignored files first/middle/last, awkward names (a blank inside / in front, a second '.sql', the text 'h1:'), equal contents, empty file, a file starting with a byte order mark, non-migration file): the complete single-edit neighbourhood - every byte position of every file and of atlas.sum x {substitute (%s), delete, insert 4 values}, a byte order mark prepended / removed, file add before/between/after x contents (new, sum-ignored, empty, copy of each file), remove, rename (order preserving / changing / out of *.sql), toggle the ignore directive, swap contents, move a tail across a file boundary, sum line remove/dup/swap (also with the first line computed anew, so that the sum file is consistent in itself), bytes moved between a name and its hash in a sum line, sum removed/emptied - judged by refSum, through a MemDir and through a LocalDir on disk (same verdict; the files handed out are the bytes on disk); for directories holding a checkpoint a material edit must also make Executor.ExecuteTo(v) fail with a checksum error for every version v that precedes the checkpoint. (3) BFS over CLI histories on a real directory with the alphabet {migrate new, migrate diff to 2 desired schemas (SQLite dev db), migrate hash, hand edits: append to newest file, remove oldest file, add a file, drop the last sum line, rename newest file}: a writer command must refuse a directory whose sum does not match and leave it untouched, must leave a valid directory otherwise; in every reached state `migrate validate` and `migrate apply` (fresh database) must succeed iff the directory was not edited since atlas last wrote or re-hashed it, and the CLI must agree with migrate.Validate(LocalDir); an edited directory handed over as a state source (`schema inspect --url file://dir`, absolute and relative URL) must be refused too; (4) `migrate import` from hand-written source directories of the 5 third-party formats x version sets (digit boundaries 9/10/11, 1/2/10, zero-padded; flyway also with a repeatable, a baseline and an undo file, and with a file in a sub-directory of a directory that lives below a hidden directory): the written directory must validate and hold the statement of every step exactly once; non-trivial = tampered directory the model calls material; distinct = (state, edit)", depth, tamperDepth, map[bool]string{false: "bit flip, newline, space", true: "all 255 other values"}[full])
+	r.Rule = fmt.Sprintf("(1) BFS to depth %d over the writer alphabet {Planner.WritePlan x 6 formatters x 2 plans x {new version, overwrite version 1}, WriteCheckpoint x 2 plans, MemDir.CopyFiles into an empty MemDir / into one that holds the first file / newest file first} from the empty MemDir (and LocalDir to depth 2); canonical state = sorted (name, bytes) with 14-digit timestamps masked; invariant Validate(dir)==nil in every state. (2) for every reached state of depth<=%d with <=3 migration files plus 12 hand-built states (sum-ignored files first/middle/last, awkward names (a blank inside / in front, a second '.sql', the text 'h1:'), equal contents, empty file, a file starting with a byte order mark, a checkpoint file between two plain files, non-migration file): the complete single-edit neighbourhood - every byte position of every file and of atlas.sum x {substitute (%s), delete, insert 4 values}, a byte order mark prepended / removed, file add before/between/after x contents (new, sum-ignored, empty, copy of each file), remove, rename (order preserving / changing / out of *.sql), toggle the ignore directive, swap contents, move a tail across a file boundary, sum line remove/dup/swap (also with the first line computed anew, so that the sum file is consistent in itself), bytes moved between a name and its hash in a sum line, sum removed/emptied - judged by refSum, through a MemDir and through a LocalDir on disk (same verdict; the files handed out are the bytes on disk); for directories holding a checkpoint a material edit must also make Executor.ExecuteTo(v) fail with a checksum error for every version v that precedes the checkpoint, and an executor on which ExecuteTo(v) was already called (twice) before the edit must report it from Pending and ExecuteN. (3) BFS over CLI histories on a real directory with the alphabet {migrate new, migrate diff to 2 desired schemas (SQLite dev db), migrate hash, hand edits: append to newest file, remove oldest file, add a file, drop the last sum line, rename newest file}: a writer command must refuse a directory whose sum does not match and leave it untouched, must leave a valid directory otherwise; in every reached state `migrate validate` and `migrate apply` (fresh database) must succeed iff the directory was not edited since atlas last wrote or re-hashed it, and the CLI must agree with migrate.Validate(LocalDir); an edited directory handed over as a state source (`schema inspect --url file://dir`, absolute and relative URL) must be refused too; (4) `migrate import` from hand-written source directories of the 5 third-party formats x version sets (digit boundaries 9/10/11, 1/2/10, zero-padded; flyway also with a repeatable, a baseline and an undo file, and with a file in a sub-directory of a directory that lives below a hidden directory): the written directory must validate and hold the statement of every step exactly once; non-trivial = tampered directory the model calls material; distinct = (state, edit)", depth, tamperDepth, map[bool]string{false: "bit flip, newline, space", true: "all 255 other values"}[full])
 	r.Assumptions = []string{
 		"material = the ordered list of *.sql files (name, bytes; bytes replaced by a marker for files whose first line carries atlas:sum ignore) changed, or atlas.sum changed other than in ASCII white space (space, tab, CR, VT, FF) or its final newline; immaterial edits of sum-ignored bodies and whitespace-only sum edits are counted, not judged",
 		"any of ErrChecksumMismatch / ErrChecksumFormat / ErrChecksumNotFound counts as a checksum error",
